@@ -989,13 +989,23 @@ def ftpcrawl_case(rng):
             'connections': rng.choice(['all', 'first', 'first-two', 'odd']), 'recursive': rng.random() < 0.5,
             'options': [o for o in ['--continue', '--timestamping', '--preserve-permissions', '--no-remove-listing', '--retr-symlinks=off']
                         if rng.random() < 0.2],
-            'mlsd': rng.random() < 0.3, 'concurrent': rng.choice([1, 1, 3]), 'second_run': rng.random() < 0.5}
+            'mlsd': rng.random() < 0.3, 'concurrent': rng.choice([1, 1, 3]), 'second_run': rng.random() < 0.5,
+            'symlinks': rng.random() < 0.4}
 
 
 def run_ftpcrawl(case, part):
     from harness import servers, crawl, ftpserver
     tree = {'/': ['pub/', 'top.txt'], '/top.txt': b'top', '/pub/': ['file.bin', 'other.bin', 'sub/'], '/pub/file.bin': b'\x00\x01' * 40,
             '/pub/other.bin': b'o' * 10, '/pub/sub/': ['deep.txt'], '/pub/sub/deep.txt': b'deep'}
+    if case.get('symlinks'):
+        # symbolic links in the listings (with --retr-symlinks=off the crawler re-creates them locally instead of fetching)
+        tree['/pub/'] = tree['/pub/'] + ['latest@', 'latest@', 'to-dir@', 'odd name@']
+        tree['/pub/latest@'] = 'file.bin'
+        tree['/pub/to-dir@'] = 'sub'
+        tree['/pub/odd name@'] = '../top.txt'
+        tree['/pub/sub/'] = tree['/pub/sub/'] + ['back@']
+        tree['/pub/sub/back@'] = '..'
+        part.count('ftp_crawls_with_symbolic_links')
     if case.get('many_dirs'):
         tree['/'] = tree['/'] + ['many/']
         tree['/many/'] = ['d%02d/' % i for i in range(case['many_dirs'])]
